@@ -355,3 +355,18 @@ func Guard(watchdog time.Duration, f func(ctx context.Context) error) CallOutcom
 	cancel()
 	return out
 }
+
+// AwaitPubs waits until the broker stand-in has recorded at least n publishes (or d has passed).
+// Server-side quiescence does not cover work a server hands to goroutines the hooks do not know
+// (e.g. a publish moved off the request path): an announcement that is DUE is therefore awaited
+// for a bounded time before its absence is reported.
+func (b *Bed) AwaitPubs(n int, d time.Duration) bool {
+	deadline := time.Now().Add(d)
+	for b.MQ.NumPubs() < n {
+		if time.Now().After(deadline) {
+			return false
+		}
+		time.Sleep(5 * time.Millisecond)
+	}
+	return true
+}
